@@ -362,6 +362,8 @@ def check(ctx):
 
     # ---- R8: sent and received headers are normalised identically ------------------------------
     header_normalisation_rule(ctx, 'R8')
+    from .c08 import packet_contract_rules
+    packet_contract_rules(ctx, 'R8', size=False)      # a request without payload is still a packet (`if outPacket:` in the radio thread), headers decoded alike for every byte (shared with C08.R4)
 
     # ---- R6 / R7: drivers ------------------------------------------------------------
     base = m.cls(BASE, 'CRTPDriver')
